@@ -6,6 +6,7 @@ verus! {
 //@include common/prelude.vrs
 //@include common/tile_bbox.vrs
 //@include common/transform.vrs
+//@include common/pbf_blob.vrs
 //@include common/compression.vrs
 //@include common/tile_converter.vrs
 //@include common/pyramid_abs.vrs
